@@ -196,3 +196,7 @@ BOUNDED['C16'] = BOUNDED['C16'] + [{'name': 'coercion-differential', 'script': '
     'bound': '19 values (simple values, null, lists - empty, homogeneous, mixed, nested, singleton -, contexts with one / two entries, lists of contexts) x 15 parameter types (simple types, Any, lists, contexts with fewer / other entries, '
              'a list of contexts, a range) through `(function(x: T) x)(V)`: the value itself when its type conforms, the item of a singleton list / a singleton list when that conforms, null otherwise; coercing twice changes nothing; '
              'answers compared by FEEL equality (about 640 evaluations; bounded duplicate of types::FeelType::coerced::post_coerce)'}]
+# the result half of "where coercion is applied: function parameters and results": typed results only exist for functions the model evaluator builds
+# (knowledge models, decision services with a typed output variable) - the differential of unit itemdef evaluates them, also with no parameters
+from units import itemdef as _itemdef  # noqa: E402
+BOUNDED['C16'] = BOUNDED['C16'] + [dict(_itemdef.BOUNDED['C11'][0], name='typed-results-differential')]
